@@ -19,12 +19,17 @@ def split_histories(lines):
 
 
 def validate(run, wd, histories):
-    """validate histories with TraceC02; returns list of rejected histories (each is re-checked after removing the
-    previously rejected ones so that every violating history is found, up to a cap)"""
+    """validate histories with TraceC02; returns the list of rejected histories.  After a rejection the histories
+    following the rejected one are validated in a new run (the prefix is already accepted), so that every violating
+    history is found at the total cost of about one pass (capped)."""
     rejected = []
-    remaining = list(histories)
-    for it in range(12):
-        flat = [e for h in remaining for e in h]
+    start = 0
+    accepted = 0
+    for it in range(25):
+        part = histories[start:]
+        if not part:
+            break
+        flat = [e for h in part for e in h]
         vlib.write_ndjson(os.path.join(wd, "trace.ndjson"), flat)
         res = vlib.tlc(wd, "TraceC02", workers=1, timeout=3000)
         if res.violation and ("AtMostOnce" in res.out or "NoFalseReplay" in res.out):
@@ -34,22 +39,24 @@ def validate(run, wd, histories):
         if res.rc != 0 or not res.finished:
             raise vlib.Inconclusive("TraceC02 failed:\n" + res.out[-3000:])
         rej = res.tags("REJECTED")
-        if it == 0:
-            run.add_model(res)
+        run.add_model(res)
         if not rej:
-            run.cov["traces_validated_against_impl"] = len(remaining)
-            return rejected
+            accepted += len(part)
+            break
         pos = int(rej[0]) - 1          # index (0-based) of the first event no behaviour explains
         n = 0
-        for hi, h in enumerate(remaining):
+        for hi, h in enumerate(part):
             if pos < n + len(h):
                 rejected.append((h, pos - n))
-                del remaining[hi]
+                accepted += hi
+                start += hi + 1
                 break
             n += len(h)
         else:
             raise vlib.Inconclusive("rejected position outside the trace")
-    run.cov["traces_validated_against_impl"] = len(remaining)
+    else:
+        run.extra["validation_capped"] = True
+    run.cov["traces_validated_against_impl"] = accepted
     return rejected
 
 
@@ -71,7 +78,8 @@ def main(tier):
         jobs = [("seq", ["-len", "4" if not run.thorough else "5", "-sample", "300" if not run.thorough else "3000"]),
                 ("timed", ["-len", "5" if not run.thorough else "6", "-skewms", "300"]),
                 ("stress", ["-rounds", "2000" if not run.thorough else "20000"]),
-                ("sched", ["-g", "2"]), ("sched", ["-g", "3"])]
+                ("sched", ["-g", "2"]), ("sched", ["-g", "3"]),
+                ("apreq-stress", ["-rounds", "300" if not run.thorough else "3000"]), ("apreq-sched", ["-g", "2"]), ("apreq-sched", ["-g", "3"])]
         if run.thorough:
             jobs += [("sched", ["-g", "4"]), ("timed", ["-len", "5", "-skewms", "1000"])]
         histories = []
@@ -93,7 +101,7 @@ def main(tier):
             raise vlib.Inconclusive("too many time-ambiguous operations (%d of %d): machine too loaded for the timed histories" % (amb, len(ops)))
         # histories that contain a replay verdict or concurrency are the non-trivial ones
         def nontrivial(h):
-            return any(e["ev"] == "ret" and e["r"] == "replay" for e in h) or h[0].get("kind") in ("stress", "sched")
+            return any(e["ev"] == "ret" and e["r"] == "replay" for e in h) or h[0].get("kind") in ("stress", "sched", "apreq-stress", "apreq-sched")
         run.cov["distinct_nontrivial"] = len({json.dumps([{k: v for k, v in e.items() if k not in ("seq", "op", "now")} for e in h], sort_keys=True)
                                               for h in histories if nontrivial(h)})
         run.cov["rule"] = ("histories of the real replay cache: all words up to length 4 (thorough 5) over 8 near-miss authenticators + clean-up, "
@@ -101,7 +109,9 @@ def main(tier):
                            "skew, clean-up} in scaled real time; free-running stress rounds of 2-16 goroutines; every schedule of 2,3 (4) "
                            "operations through the yield points in 7 scenarios. evaluations = IsReplay calls; distinct = distinct histories "
                            "with a replay verdict or with concurrency")
-        for kind in ("seq", "timed", "stress", "sched"):
+        other = [e["r"] for e in rets.values() if e["r"] not in ("fresh", "replay")]
+        run.extra["verdicts_other"] = len(other)
+        for kind in ("seq", "timed", "stress", "sched", "apreq-sched"):
             for h in histories:
                 if h[0].get("kind") == kind and nontrivial(h) and len(h) < 14:
                     run.sample(h)
@@ -112,7 +122,7 @@ def main(tier):
         for h, pos in rejected:
             kind = h[0].get("kind")
             facts = {"kind": kind, "scenario": h[0].get("scenario", ""), "word": h[0].get("word", ""), "verdicts": [e["r"] for e in h if e["ev"] == "ret"]}
-            if kind in ("stress", "sched", "timed"):
+            if kind in ("stress", "sched", "timed", "apreq-stress", "apreq-sched"):
                 facts = {"kind": kind, "scenario": h[0].get("scenario", ""), "word": h[0].get("word", "")}
             run.violation(facts, {"history": h, "first_unexplained_event": pos})
         run.assumptions += ["one clock-skew setting per process (the singleton's cleaner keeps the first caller's duration); the harness makes it inert (24h) and calls ClearOldEntries itself",
